@@ -177,8 +177,16 @@ def run(ctx):
         "the TCP side of the equivalence theorems is the C09 model, itself tied by Nsq.Tie.Proto and the C09 harness",
     ]
     ctx.assumptions += [
-        "no_500: holds for healthy=true; /ping answers 500 while nsqd.IsHealthy() is false (backend write error)",
-        "backend I/O faults (topic.Empty / channel.Empty / PersistMetadata errors, body read errors) are outside",
+        "no_500 / no_500_complete: holds for healthy=true; /ping answers 500 while nsqd.IsHealthy() is false (backend write error)",
+        "no_500_complete: the request is complete (declared length = bytes that arrive, or chunked): an interrupted body is "
+        "answered 500 by /pub, text /mpub and PUT /config (read-error branch, not modelled; observed on the real listener "
+        "by TestVerifE3HTTPAudit, oracle http-interrupted)",
+        "the daemon is not exiting (503 EXITING from /pub and /mpub) and os.Hostname() succeeds (/info answers 500 otherwise): "
+        "no model branch, named exclusions",
+        "backend I/O faults (topic.Empty / channel.Empty / PersistMetadata errors) are outside",
+        "body_read_bounded, admin_reads_no_body: the tree with fix F33 (fixes/F33_reqparams_no_body_read.patch); on the "
+        "unfixed tree the statement is false (body_read_bounded_false_before_F33, open finding admin-body-unbounded)",
+        "mpub_text_vs_tcp: options shared (Linked), valid topic name, framed batch shorter than 2^31 bytes",
         "equivalence theorems: both servers read the same options, auth disabled, 0 <= max-req-timeout < 2^63-1 ns, "
         "max-msg-size >= 0, body shorter than 2^31 bytes, request complete (declared length = body length, or chunked)",
         "mpub_binary_equiv_tcp: a chunked body is within max-body-size (beyond it HTTP reads only the first "
@@ -194,7 +202,11 @@ def run(ctx):
                 "health fault; interleaved TCP connections that create channels, consumers and messages. Compared: "
                 "status, message, white-box broker snapshot after every op. Distinct by op line; non-trivial = all. "
                 "Direct oracles: no 500 / panic; twin topics (HTTP vs TCP publish of the same payload leave "
-                "identical queues or are both rejected); size limits on accepted publishes; listener smoke test")
+                "identical queues or are both rejected — for text /mpub both sides are checked against the exact limits of "
+                "their format, divergent cases included); size limits on accepted publishes; listener smoke test. Audit round 7: "
+                "`httpb` histories (bodies up to 100 x max-body-size on every endpoint, counting reader): status, bytes of body "
+                "consumed, broker; oracle: no handler consumes more than max(max-msg-size,max-body-size)+1 bytes; interrupted "
+                "requests on the real listener")
     gen_ok, _ = ctx.gen("e3_proto")
     ok, log = ctx.lean_build(TIE + PROPS)
     if not ok:
